@@ -247,14 +247,15 @@ Init == \E ms \in [Slots -> Maxes] : InitWith(ms)
 TextOf(i) == IF name[i].kind = "text" THEN name[i].s ELSE <<>>
 
 Next ==
-  \/ \E i \in Slots, s \in Strings : Set(i, s, "len") \/ Set(i, s, "cstr")
+  \/ \E i \in Slots, s \in Strings : Set(i, s, "len")
+  \/ \E i \in Slots, n \in Lens : Set(i, P1(n), "cstr") \/ Set(i, P2(n), "cstr")
   \/ \E i \in Slots, n \in Lens : SetRaw(i, n)
   \/ \E i \in Slots, j \in Slots : Copy(i, j) \/ Inequal(i, j)
   \/ \E i \in Slots : CopyNull(i) \/ Fini(i)
   \/ \E i \in Slots, m \in Maxes : Make(i, m + 4, "init", m)
   \/ \E i \in Slots, j \in 0..NId : TInit(i, j)
-  \/ \E i \in Slots, j \in Slots, mode \in {"len", "cstr"} :
-        \E s \in Near(TextOf(j)) : Compare(i, s, mode)
+  \/ \E i \in Slots, j \in Slots : \E s \in Near(TextOf(j)) : Compare(i, s, "len")
+  \/ \E i \in Slots, j \in Slots : Compare(i, TextOf(j), "cstr") \/ Compare(i, Append(TextOf(j), 7), "cstr")
   \/ \E j \in Slots, pos \in {-2, -1, 0, 1, 2} : \E s \in {TextOf(j), Append(TextOf(j), 7)} : Locate(s, pos)
 
 Spec == Init /\ [][Next]_vars
